@@ -287,6 +287,32 @@ theorem replay_hands_good (thr : Nat → Nat → Nat → Except Err Int) (c : Co
   rw [hs]
   exact (rinv_final _ (S2.mkConfig_al c hc limit threads print) es _ (rinv_init c hc x limit threads print) hacc).2
 
+/-- under the per-chunk hypothesis the thread function never fails on anything `replay` passes to it: the only error a
+    replay from an invariant state can produce is `badRun` (the recorded history is not a run / a reported sum is
+    not the thread function's value) -/
+theorem replay_ok_or_badRun (thr : Nat → Nat → Nat → Except Err Int) (F : Chunk → Int) (cfg : S2.Config)
+    (hal : cfg.al = 240)
+    (hthr : ∀ low segs size, GoodItem low segs size → low < cfg.limit →
+      thr low segs size = .ok (F (low, min (low + size * segs) cfg.limit))) :
+    ∀ (es : List S2.Ev) (s : S2.State), RInv cfg s →
+      (∃ s', replay thr cfg s es = .ok s') ∨ replay thr cfg s es = .error .badRun := by
+  intro es
+  induction es with
+  | nil => intro s _; exact Or.inl ⟨s, rfl⟩
+  | cons e es ih =>
+    intro s hi
+    have hg : HandGood cfg (getHand e.w s.hands) :=
+      getHand_all (HandGood cfg) (fun h => absurd h (by simp)) e.w s.hands hi.2
+    have hv := handValue_eq thr F cfg hthr _ hg
+    simp only [replay, hv]
+    by_cases hok : S2.ok cfg s e = true
+    · simp only [hok, not_true_eq_false, if_false]
+      by_cases hve : optVal F (S2.handChunk cfg (getHand e.w s.hands)) = e.tsum
+      · simp only [hve, ne_eq, not_true_eq_false, if_false]
+        exact ih _ (rinv_step cfg hal s e hi hok)
+      · simp [hve]
+    · simp [hok]
+
 /-! ### the two models -/
 
 /-- `S2_hard_OpenMP`: given the per-chunk theorem (`S2_hard_thread` on a good work item returns `F` of its chunk, `F`
@@ -327,6 +353,56 @@ theorem dOpenMP_total {σ : Type} (S : SieveOps σ) (e : Env) (c : Consts) (hc :
         rw [← h]
         exact replay_total _ F hF c hc x (x / z) threads print hthr es s hs hcomp
       · exact absurd h (by simp)
+
+/-- given the per-chunk theorem, `S2_hard_OpenMP` on ANY recorded history either returns `F [0, z)` or reports that the
+    history is not a complete run of the dispenser by workers reporting their values (`badRun`); no table is read
+    out of bounds, nothing divides by zero, no segment loop hangs -/
+theorem s2HardOpenMP_ok_or_badRun {σ : Type} (S : SieveOps σ) (e : Env) (c : Consts) (hc : c.WF)
+    (x y z cc threads : Nat) (print : Bool) (F : Chunk → Int) (hF : Additive F)
+    (hthr : ∀ low segs size, GoodItem low segs size → low < z →
+      s2HardThread S e x y z cc low segs size = .ok (F (low, min (low + size * segs) z)))
+    (es : List S2.Ev) :
+    s2HardOpenMP S e c x y z cc threads print es = .ok (F (0, z)) ∨
+      s2HardOpenMP S e c x y z cc threads print es = .error .badRun := by
+  cases hr : s2HardOpenMP S e c x y z cc threads print es with
+  | ok v => left; rw [s2HardOpenMP_total S e c hc x y z cc threads print F hF hthr es v hr]
+  | error er =>
+    right
+    unfold s2HardOpenMP at hr
+    simp only at hr
+    rcases replay_ok_or_badRun _ F (S2.mkConfig c z threads print) (S2.mkConfig_al c hc z threads print) hthr es _
+      (rinv_init c hc x z threads print) with ⟨s', h⟩ | h
+    · rw [h] at hr
+      simp only at hr
+      split at hr
+      · exact absurd hr (by simp)
+      · simp only [Except.error.injEq] at hr; rw [hr]
+    · rw [h] at hr
+      simp only [Except.error.injEq] at hr; rw [hr]
+
+/-- the same for `D_OpenMP`; `z = 0` is the C++ division by zero in `xz = x / z` -/
+theorem dOpenMP_ok_or_badRun {σ : Type} (S : SieveOps σ) (e : Env) (c : Consts) (hc : c.WF)
+    (x y z k threads : Nat) (print : Bool) (hz : z ≠ 0) (F : Chunk → Int) (hF : Additive F)
+    (hthr : ∀ low segs size, GoodItem low segs size → low < x / z →
+      dThread S e x (xStar x y) (x / z) y z k low segs size = .ok (F (low, min (low + size * segs) (x / z))))
+    (es : List S2.Ev) :
+    dOpenMP S e c x y z k threads print es = .ok (F (0, x / z)) ∨
+      dOpenMP S e c x y z k threads print es = .error .badRun := by
+  cases hr : dOpenMP S e c x y z k threads print es with
+  | ok v => left; rw [dOpenMP_total S e c hc x y z k threads print F hF hthr es v hr]
+  | error er =>
+    right
+    unfold dOpenMP at hr
+    simp only [hz, if_false] at hr
+    rcases replay_ok_or_badRun _ F (S2.mkConfig c (x / z) threads print)
+      (S2.mkConfig_al c hc (x / z) threads print) hthr es _ (rinv_init c hc x (x / z) threads print) with ⟨s', h⟩ | h
+    · rw [h] at hr
+      simp only at hr
+      split at hr
+      · exact absurd hr (by simp)
+      · simp only [Except.error.injEq] at hr; rw [hr]
+    · rw [h] at hr
+      simp only [Except.error.injEq] at hr; rw [hr]
 
 /-- the result of `S2_hard_OpenMP` does not depend on the run: two recorded histories (different team sizes, print
     modes, return orders, timings) on which the model returns a value return the same value -/
@@ -443,7 +519,10 @@ end Pc.Hard
 #print axioms Pc.Hard.replay_independent_of_run
 #print axioms Pc.Hard.replay_of_honest
 #print axioms Pc.Hard.replay_hands_good
+#print axioms Pc.Hard.replay_ok_or_badRun
 #print axioms Pc.Hard.s2HardOpenMP_total
+#print axioms Pc.Hard.s2HardOpenMP_ok_or_badRun
+#print axioms Pc.Hard.dOpenMP_ok_or_badRun
 #print axioms Pc.Hard.dOpenMP_total
 #print axioms Pc.Hard.s2HardOpenMP_independent_of_run
 #print axioms Pc.Hard.dOpenMP_independent_of_run
